@@ -23,7 +23,14 @@ func Calc(ctx context.Context, proc *query.Processor, expr string) error {
 		e.Message = "syntax error"
 		return query.NewSyntaxError(e)
 	}
-	selectEntity, _ := program[0].(parser.SelectQuery).SelectEntity.(parser.SelectEntity)
+	selectQuery, ok := program[0].(parser.SelectQuery)
+	if !ok {
+		return query.NewSyntaxError(&parser.SyntaxError{Message: "syntax error"})
+	}
+	selectEntity, ok := selectQuery.SelectEntity.(parser.SelectEntity)
+	if !ok || selectEntity.FromClause == nil {
+		return query.NewSyntaxError(&parser.SyntaxError{Message: "syntax error"})
+	}
 
 	scope := query.NewReferenceScope(proc.Tx)
 	queryScope := scope.CreateNode()
